@@ -36,6 +36,50 @@ type OblOut struct {
 	Model     map[string]string `json:"model,omitempty"`
 	Output    string            `json:"solver_output,omitempty"`
 	Second    []string          `json:"second_solver,omitempty"`
+	Failures  []Failure         `json:"failures,omitempty"`
+}
+
+type Failure struct {
+	Where   string            `json:"where"`
+	Model   map[string]string `json:"model"`
+	SMTFile string            `json:"smt_file"`
+}
+
+// heapReads collects reads of the initial heap (select chains rooted at an H0$ variable with
+// quantifier-free indices) so that models describe the pre-state objects.
+func heapReads(ts []*Term) []*Term {
+	seen := map[*Term]bool{}
+	var out []*Term
+	var rooted func(t *Term) bool
+	rooted = func(t *Term) bool {
+		if t.Op == "var" {
+			return strings.HasPrefix(t.Name, "H0$")
+		}
+		if t.Op == "select" {
+			return rooted(t.Args[0])
+		}
+		return false
+	}
+	var rec func(t *Term)
+	rec = func(t *Term) {
+		if seen[t] {
+			return
+		}
+		seen[t] = true
+		if t.Op == "select" && !t.hasBV && !t.Sort.IsArr() && rooted(t.Args[0]) {
+			out = append(out, t)
+		}
+		for _, a := range t.Args {
+			rec(a)
+		}
+	}
+	for _, t := range ts {
+		rec(t)
+	}
+	if len(out) > 200 {
+		out = out[:200]
+	}
+	return out
 }
 
 type FuncOut struct {
@@ -63,6 +107,8 @@ type Result struct {
 	SolveSecs   float64        `json:"solve_secs"`
 	VCs         int            `json:"vcs"`
 	FeasCalls   int            `json:"feasibility_calls"`
+	Strings     map[string]string `json:"string_codes"`
+	Types       map[string]string `json:"type_ids"`
 	Fatal       string         `json:"fatal,omitempty"`
 	FatalKind   string         `json:"fatal_kind,omitempty"`
 }
@@ -199,8 +245,9 @@ func main() {
 		asserts = append(asserts, Not(o.Goal))
 		var gv []*Term
 		if o.Kind != "cover" {
-			gv = o.Inputs
+			gv = append(append([]*Term{}, o.Inputs...), heapReads(asserts)...)
 		}
+		o.GetValues = gv
 		used := func(name string) bool { _, ok := ufDecls[name]; return ok }
 		scripts[i] = Script(asserts, stringAxioms(used), gv)
 		o.File = filepath.Join(*out, fmt.Sprintf("vc_%04d_%s.smt2", i, sanitize(o.Name)))
@@ -214,6 +261,14 @@ func main() {
 			defer func() { <-sem }()
 			writeFile(o.File, scripts[i])
 			r := Solve(o.File, *timeout, *seed, *second && o.Kind != "cover")
+			if r.Status == "sat" {
+				r.Model = map[string]string{}
+				for k, v := range r.Values {
+					if k < len(o.GetValues) {
+						r.Model[o.GetValues[k].String()] = v
+					}
+				}
+			}
 			o.Result = &r
 		}()
 	}
@@ -249,6 +304,9 @@ func main() {
 				a.SMTFile = o.File
 			}
 		case "sat":
+			if len(a.Failures) < 40 {
+				a.Failures = append(a.Failures, Failure{Where: o.Where, Model: r.Model, SMTFile: o.File})
+			}
 			if a.Status != "sat" {
 				a.Status = "sat"
 				a.SMTFile = o.File
@@ -285,6 +343,14 @@ func main() {
 				res.Functions[i].Cover = c.Result.Status
 			}
 		}
+	}
+	res.Strings = map[string]string{}
+	for c, sv := range strByID {
+		res.Strings[fmt.Sprint(c)] = sv
+	}
+	res.Types = map[string]string{}
+	for id, t := range typeByID {
+		res.Types[fmt.Sprint(id)] = t.String()
 	}
 	res.Inlined, res.Havocked, res.UsedSpecs, res.AssumedDep, res.Notes = e.Inlined, e.Havocked, e.UsedSpecs, e.AssumedDep, e.Notes
 	writeRes()
